@@ -134,7 +134,10 @@ func execCrash(input string) Result {
 				badFinish++
 				note(fmt.Sprintf("crash case [%s]: seed %s reported finished with a node still awaiting fetching or post-processing", input, e.fields[0]))
 			}
-		case "pre.done":
+		case "pre.in", "pre.done":
+			// the seen-store is written INSIDE preprocess(), between the two hook points: a seed that has entered the
+			// preprocessor when the process dies may already be recorded as seen (thorough-tier false alarm of monitor 2
+			// when only pre.done was counted: kill=pre.done:2 with another worker between seencheck and its pre.done)
 			if i, ok := sid[e.fields[0]]; ok && !seenPre[e.fields[0]] {
 				seenPre[e.fields[0]] = true
 				preprocessed = append(preprocessed, strconv.Itoa(i))
